@@ -92,6 +92,59 @@ func vhLongFileTail() {
 		vAssert(na.Equal(time.Date(2033, 5, 6, 0, 0, 0, 0, time.Local)), "notAfter is not the `until` written behind the first 64 KiB of the configuration file")
 		return
 	}
+	if scen == 3 {
+		// C07: a long list of names (2000 dns names, 80 KB of JSON) and a
+		// keyUsage extension behind it
+		names := make([]v1.SubjAltNameComponent, 2000)
+		list := ""
+		for k := range names {
+			nm := "host" + string([]byte{byte('0' + k/1000%10), byte('0' + k/100%10), byte('0' + k/10%10), byte('0' + k%10)}) + ".example.org"
+			names[k] = v1.SubjAltNameComponent{Type: "dns", Name: nm}
+			if k > 0 {
+				list += ",\n   "
+			}
+			list += "{\"type\": \"dns\", \"name\": \"" + nm + "\"}"
+		}
+		body := "{\n \"version\": 1,\n \"subject\": \"CN=many\",\n \"serialNumber\": 9,\n \"validity\": {\"from\": \"2024-01-01\", \"until\": \"2031-02-03\"},\n \"extensions\": [\n  {\"subjectAlternativeName\": {\"content\": [\n   " +
+			list + "\n  ]}},\n  {\"keyUsage\": {\"critical\": true, \"content\": [\"digitalSignature\", \"keyEncipherment\"]}}\n ]\n}\n"
+		vAssert(len(body) > 65536, "harness: the file is not larger than 64 KiB")
+		fsys.put("pki/many.json", []byte(body), vNow())
+		d := NewFilesystemDatabase(fsys)
+		vAssert(d.Open() == nil, "Open failed")
+		list2, err := db.PlanBulkUpdate(d, vDefaultFlags)
+		g := 0
+		if err == nil {
+			g, err = db.BulkUpdate(d, list2)
+		}
+		vAssert(err == nil && g == 1, "a configuration file with a long list of names was not generated")
+		if err != nil || g != 1 {
+			return
+		}
+		vReach("ran")
+		a, err := d.GetBuildArtifact("many")
+		vAssert(err == nil && a != nil && a.Certificate != nil, "no certificate in the database after the run")
+		if err != nil || a == nil || a.Certificate == nil {
+			return
+		}
+		b, berr := v1.SubjectAltName{Content: names}.Builder()
+		vAssert(berr == nil && b != nil, "harness: reference builder failed")
+		if berr != nil || b == nil {
+			return
+		}
+		ref, cerr := b.Compile(nil)
+		vAssert(cerr == nil && ref != nil, "harness: reference extension failed")
+		if cerr != nil || ref == nil {
+			return
+		}
+		exts := a.Certificate.TBSCertificate.Extensions
+		vAssert(len(exts) == 2, "the certificate does not carry both configured extensions (one of them stands behind a long list)")
+		if len(exts) == 2 {
+			vAssert(len(exts[0].Value) == len(ref.Value) && string(exts[0].Value) == string(ref.Value), "a long subjectAlternativeName list is not encoded completely")
+			vAssert(len(exts[0].Value) > 2000*20, "harness: the reference is shorter than the names")
+			vAssert(len(exts[1].Value) == 4 && string(exts[1].Value) == string([]byte{0x03, 0x02, 0x05, 0xa0}) && exts[1].Critical, "the keyUsage extension behind a long list is not the configured one")
+		}
+		return
+	}
 	text := "{\n \"version\": 1,\n \"subject\": \"CN=doc\",\n \"serialNumber\": 9,\n \"validity\": {\"from\": \"2024-01-01\", \"until\": \"2031-02-03\"},\n \"extensions\": [\n  {\"admission\": {\"content\": {\n" +
 		"   \"admissionAuthority\": {\"type\": \"dns\", \"name\": \"top.example\"},\n   \"admissions\": [\n    {\"professionInfos\": [\n" +
 		"     {\"professionItems\": [\"first\"],\n      \"addProfessionInfo\": \"!binary:" + b64 + "\",\n      \"registrationNumber\": \"9-8-7-6-5-4-3-2-1\",\n      \"professionOids\": [\"1.2.3.4\"]},\n" +
